@@ -1,15 +1,15 @@
 import Verif.Lemmas.Ring
-import Verif.Lemmas.Mutex
+import Verif.Lemmas.RingMutex
 /-!
 # The log ring used from several goroutines
 
 Operations a goroutine can issue, their sequential meaning on (ring state, results returned by `GetLogs` so far),
-the specification's meaning on (one log, results), and their micro-step semantics for `Verif.Mutex`: which
+the specification's meaning on (one log, results), and their micro-step semantics for `Verif.RingMutex`: which
 micro-steps a call consists of and — from the lock facts extracted from the Go source — whether they run under the
 one shared mutex.
 -/
 namespace Verif.Ring
-open Verif.Mutex
+open Verif.RingMutex
 
 variable {ε : Type}
 
